@@ -226,7 +226,13 @@ def gen_case(rng, tier, ctx, i):
         if rec is None:
             return None
         return {"api": "solve", "recipe": rec, "seed": rng.getrandbits(32)}
-    return {"api": "select", "recipe": confgen.gen_config(rng), "seed": rng.getrandbits(32)}
+    rec = confgen.gen_config(rng)
+    if rng.random() < 0.15:
+        BIG = rng.choice([3_000_000_000, 2 ** 33, -3_000_000_000])
+        lo, hi = (BIG, BIG + 2) if BIG > 0 else (BIG - 2, BIG)
+        rec["args"].append({"k": "Imply", "id": None, "args": [{"k": "All", "id": None, "args": [confgen.V("a")]},
+                                                             {"k": "AtLeast", "id": None, "value": lo + 1, "sign": 1, "args": [{"k": "var", "id": "t", "b": [lo, hi]}]}]})
+    return {"api": "select", "recipe": rec, "seed": rng.getrandbits(32)}
 
 
 def run_case(case, ctx):
